@@ -1066,3 +1066,66 @@ pub fn c13_burst_test(_w: &mut (), c: &BurstVsPaced) -> Verdict {
     }
     Verdict::Pass(if c.requests >= 9 { Good::nontrivial() } else { Good::trivial() }.class(if c.tcp { "tcp" } else { "unix" }).class(format!("requests={}", c.requests)))
 }
+
+// ------------------------------------------------------------------------------------------
+// C20: the server is dropped while its owner's thread unwinds from a panic
+
+#[derive(Clone, Debug, Serialize, Deserialize)]
+pub struct UnwindDrop {
+    pub tcp: bool,
+    /// connections served before
+    pub served: usize,
+}
+
+pub fn c20_unwind_strategy() -> BoxedStrategy<UnwindDrop> {
+    (any::<bool>(), 0usize..3).prop_map(|(tcp, served)| UnwindDrop { tcp, served }).boxed()
+}
+
+pub fn c20_unwind_test(_w: &mut (), c: &UnwindDrop) -> Verdict {
+    let dir = format!("{}/target/tmp", vcore::report::verif_root());
+    let _ = std::fs::create_dir_all(&dir);
+    let path = format!("{}/c20unw-{}-{:?}.sock", dir, std::process::id(), std::thread::current().id()).replace(['(', ')'], "");
+    let _ = std::fs::remove_file(&path);
+    let server = if c.tcp { tiny_http::Server::http("127.0.0.1:0") } else { tiny_http::Server::http_unix(std::path::Path::new(&path)) };
+    let Ok(server) = server else { return Verdict::Pass(Good::trivial().class("scenario-not-set-up")) };
+    let addr = server.server_addr().to_ip();
+    let connect = |p: &str| -> std::io::Result<Box<dyn ReadWriteTimeout>> {
+        if c.tcp {
+            std::net::TcpStream::connect(addr.unwrap()).map(|s| Box::new(s) as Box<dyn ReadWriteTimeout>)
+        } else {
+            std::os::unix::net::UnixStream::connect(p).map(|s| Box::new(s) as Box<dyn ReadWriteTimeout>)
+        }
+    };
+    for i in 0..c.served {
+        if let Ok(mut s) = connect(&path) {
+            let _ = s.write_all(format!("GET /s{} HTTP/1.1\r\nHost: h\r\nConnection: close\r\n\r\n", i).as_bytes());
+            if let Ok(Some(rq)) = server.recv_timeout(Duration::from_secs(3)) {
+                let _ = rq.respond(tiny_http::Response::from_string("ok"));
+            }
+            let mut b = [0u8; 256];
+            let _ = s.read(&mut b);
+        }
+    }
+    // the owner panics: the server is dropped during unwinding
+    let owner = std::thread::spawn(move || {
+        let _ = std::panic::catch_unwind(std::panic::AssertUnwindSafe(move || {
+            let _own = server;
+            std::panic::panic_any(vcore::panics::HarnessPanic);
+        }));
+    });
+    let _ = owner.join();
+    // quiet period, then the first attempt counts
+    std::thread::sleep(Duration::from_millis(400));
+    let first = connect(&path);
+    let accepted = first.is_ok();
+    drop(first);
+    let path_left = !c.tcp && std::path::Path::new(&path).exists();
+    let _ = std::fs::remove_file(&path);
+    if accepted {
+        return fail("C20/real/accepting-after-drop-during-unwinding", format!("the server was dropped while its owner's thread unwound from a panic; 400 ms later the first connection attempt was accepted ({})", if c.tcp { "TCP" } else { "UNIX" }));
+    }
+    if path_left {
+        return fail("C20/real/unix-path-left-after-drop-during-unwinding", "the server was dropped while its owner's thread unwound from a panic; 400 ms later its socket path still existed".to_string());
+    }
+    Verdict::Pass(Good::nontrivial().class(if c.tcp { "tcp" } else { "unix" }).class(format!("served-before={}", c.served)))
+}
